@@ -211,6 +211,26 @@ theorem C14_reachable_numbers_ok (x : BitVec 64) (h : isNaN x = false ∨ arithN
   · exact C14_non_nan_are_numbers x h
   · exact (C14_arith_nans_are_numbers x h).2.1
 
+/-! ## The collector's view of a value (boxed `impl Trace for Value`, regenerated) -/
+
+/-- **C14_trace_only_objects.** In the boxed representation the collector dereferences a value as
+an object pointer exactly when the value is an object: never a number (in particular neither of the
+NaNs arithmetic produces, nor an infinity or a zero), a boolean, nil or undefined — the same values
+the enum build's `if let Value::Obj(obj) = self` reaches. -/
+theorem C14_trace_only_objects (v : BitVec 64) : trace_derefs v = is_obj v := rfl
+
+theorem C14_trace_skips_every_number (a : Abs) (h : a.ok = true) :
+    trace_derefs (encode a) = true ↔ a.kind = Kind.Obj := by
+  rw [C14_trace_only_objects]
+  have := (C14_tests_agree a h)
+  rw [this.2.2.2.2.2]
+  cases a <;> simp [enumIsObj, Abs.variant, Abs.kind]
+
+/-- in particular the sign-set NaN `0/0` evaluates to on x86 -/
+example : trace_derefs (encode (.num 0xfff8000000000000#64)) = false ∧
+    trace_derefs (encode (.num 0x7ff8000000000000#64)) = false ∧
+    trace_derefs (encode (.num 0xfff0000000000000#64)) = false := by decide
+
 /-! ## Equality -/
 
 /-- on every generated table we accept, the enum `==` is: same variant and equal payloads, except
